@@ -66,6 +66,7 @@ def dispatch (fam : String) : Option (List String → String → Option Res) :=
   | "valset" => some runValset
   | "checkpoint" => some runCheckpoint
   | "vparams" => some runVparams
+  | "evmaddr" => some runEvmAddr
   | "attest" => some runAttest
   | "qid" => some runQid
   | "wvalue" => some runWvalue
